@@ -394,7 +394,10 @@ func (p *Process) internalStop() error {
 }
 
 func (p *Process) stopProcess(cancelReadinessFuncs bool) error {
-	p.runCancelFn()
+	if cancelReadinessFuncs {
+		// an internal stop (failed readiness probe) leaves the restart policy in charge
+		p.runCancelFn()
+	}
 	verifGate(p, "stop.cancelled")
 	if !p.isRunning() {
 		log.Debug().Msgf("process %s is in state %s not shutting down", p.getName(), p.getStatusName())
